@@ -108,6 +108,23 @@ fn frames_for(rng: &mut Rng, ai: usize, icao: u32) -> Vec<Vec<u8>> {
         let me = (tc << 51) | (rng.next_u64() & ((1 << 51) - 1));
         v.push(world::df17(icao, 5, me));
     }
+    // any type code with arbitrary content: identification with characters
+    // outside the alphabet, positions with illegal altitude codes, velocity
+    // subtypes 2-4 and reserved ones, ...
+    for _ in 0..6 {
+        let tc = rng.range(1, 22);
+        let me = (tc << 51) | (rng.next_u64() & ((1 << 51) - 1));
+        v.push(world::df17(icao, rng.below(8) as u8, me));
+    }
+    // identification whose call sign holds an unassigned character code
+    {
+        let mut me = (rng.range(1, 4) << 51) | (rng.below(8) << 48);
+        for k in 0..8 {
+            let code = if k == rng.below(8) as usize || rng.chance(0.1) { *rng.pick(&[0u64, 27, 31, 33, 47, 58, 63]) } else { rng.range(1, 26) };
+            me |= code << (42 - 6 * k);
+        }
+        v.push(world::df17(icao, 5, me));
+    }
     // TIS-B with assorted control fields
     for cf in [0u8, 1, 2, 5, 6] {
         let (f, _) = world::df17_airborne_position(icao, 11, alt, lat, lon, rng.chance(0.5));
